@@ -239,11 +239,13 @@ def wrapper_cases(seed, tier, real_t=np.float64):
             lambda k=k, vf=vf: k(vector_field=vf), "laplacian_filter_3d[vector,convolution,order=2]",
             ref=lambda b: {"vector_field": np.array([R.laplacian_filter(c_.astype(np.float64), 2, "convolution") for c_ in b["vector_field"]])})
         # boundary-zone damping
-        for w_, ftype in ([(0, "scalar"), (1, "scalar"), (2, "vector")] if tier == "quick" else [(w_, t_) for w_ in range(0, 7) for t_ in ("scalar", "vector") if (w_ + (t_ == "vector")) % 2 == 0 or w_ < 3]):
+        for w_, ftype in ([(0, "scalar"), (1, "scalar"), (2, "vector"), (3, "scalar")] if tier == "quick" else [(w_, t_) for w_ in range(0, 7) for t_ in ("scalar", "vector") if (w_ + (t_ == "vector")) % 2 == 0 or w_ < 3]):
             lo = 2 * max(w_, 2) + 1
             S3 = tuple(int(v) for v in r.integers(lo, lo + 3, size=3))
             if len(set(S3)) < 3:        # non-cubic: the three extents pairwise different
                 S3 = tuple(int(v) for v in lo + r.permutation(3))
+            if w_ == 3:                 # one axis narrower than two zone widths: front and back zones overlap
+                S3 = tuple(int(v) for v in np.array([4, 8, 9])[r.permutation(3)])
             dx = real_t(1.0 / S3[2])
             coords = [((np.arange(n) + 0.5) * dx).astype(real_t) for n in S3]
             zg, yg, xg = (np.ascontiguousarray(m) for m in np.meshgrid(*coords, indexing="ij"))
